@@ -555,6 +555,7 @@ static size_t get_value_size(carquet_physical_type_t type, int32_t type_length) 
 
 static carquet_status_t load_dictionary_page_mmap(
     carquet_column_reader_t* reader,
+    int64_t dict_offset,
     carquet_error_t* error) {
 
     carquet_reader_t* file_reader = reader->file_reader;
@@ -562,7 +563,6 @@ static carquet_status_t load_dictionary_page_mmap(
     const parquet_column_metadata_t* col_meta = reader->col_meta;
 
     /* Parse page header directly from mmap */
-    int64_t dict_offset = col_meta->dictionary_page_offset;
     const uint8_t* header_ptr = mmap_data + dict_offset;
 
     parquet_page_header_t page_header;
@@ -647,6 +647,7 @@ static carquet_status_t load_dictionary_page_mmap(
 
 static carquet_status_t load_dictionary_page_fread(
     carquet_column_reader_t* reader,
+    int64_t dict_offset,
     carquet_error_t* error) {
 
     carquet_reader_t* file_reader = reader->file_reader;
@@ -654,7 +655,7 @@ static carquet_status_t load_dictionary_page_fread(
     const parquet_column_metadata_t* col_meta = reader->col_meta;
 
     /* Seek to dictionary page */
-    if (fseek(file, col_meta->dictionary_page_offset, SEEK_SET) != 0) {
+    if (fseek(file, dict_offset, SEEK_SET) != 0) {
         CARQUET_SET_ERROR(error, CARQUET_ERROR_FILE_SEEK, "Failed to seek to dictionary");
         return CARQUET_ERROR_FILE_SEEK;
     }
@@ -681,7 +682,7 @@ static carquet_status_t load_dictionary_page_fread(
     }
 
     /* Seek past header and read page data */
-    if (fseek(file, col_meta->dictionary_page_offset + (long)header_size, SEEK_SET) != 0) {
+    if (fseek(file, dict_offset + (long)header_size, SEEK_SET) != 0) {
         CARQUET_SET_ERROR(error, CARQUET_ERROR_FILE_SEEK, "Failed to seek past dict header");
         return CARQUET_ERROR_FILE_SEEK;
     }
@@ -750,7 +751,7 @@ static carquet_status_t load_dictionary_page_fread(
      * dictionary-encoded columns. The reliable offset is always right
      * after the dictionary page: dict_offset + header + compressed data. */
     if (status == CARQUET_OK) {
-        reader->data_start_offset = col_meta->dictionary_page_offset +
+        reader->data_start_offset = dict_offset +
                                     (int64_t)header_size +
                                     page_header.compressed_page_size;
     }
@@ -815,7 +816,8 @@ static carquet_status_t load_next_page_mmap(
 
     /* Load dictionary if needed (may update data_start_offset) */
     if (col_meta->has_dictionary_page_offset && !reader->has_dictionary) {
-        carquet_status_t status = load_dictionary_page_mmap(reader, error);
+        carquet_status_t status = load_dictionary_page_mmap(reader,
+            col_meta->dictionary_page_offset, error);
         if (status != CARQUET_OK) {
             return status;
         }
@@ -831,6 +833,17 @@ static carquet_status_t load_next_page_mmap(
         header_ptr, 256, &page_header, &header_size, error);
     if (status != CARQUET_OK) {
         return status;
+    }
+
+    /* Writers that do not set dictionary_page_offset point data_page_offset
+     * at the dictionary page, which is always the first page of the chunk */
+    if (page_header.type == CARQUET_PAGE_DICTIONARY && !reader->has_dictionary &&
+        reader->current_page == 0) {
+        status = load_dictionary_page_mmap(reader, page_offset, error);
+        if (status != CARQUET_OK) {
+            return status;
+        }
+        return load_next_page_mmap(reader, error);
     }
 
     if (page_header.type != CARQUET_PAGE_DATA && page_header.type != CARQUET_PAGE_DATA_V2) {
@@ -1014,7 +1027,8 @@ static carquet_status_t load_next_page_fread(
 
     /* Load dictionary if needed (may update data_start_offset) */
     if (col_meta->has_dictionary_page_offset && !reader->has_dictionary) {
-        carquet_status_t status = load_dictionary_page_fread(reader, error);
+        carquet_status_t status = load_dictionary_page_fread(reader,
+            col_meta->dictionary_page_offset, error);
         if (status != CARQUET_OK) {
             return status;
         }
@@ -1041,6 +1055,17 @@ static carquet_status_t load_next_page_fread(
         header_buf, header_read, &page_header, &header_size, error);
     if (status != CARQUET_OK) {
         return status;
+    }
+
+    /* Writers that do not set dictionary_page_offset point data_page_offset
+     * at the dictionary page, which is always the first page of the chunk */
+    if (page_header.type == CARQUET_PAGE_DICTIONARY && !reader->has_dictionary &&
+        reader->current_page == 0) {
+        status = load_dictionary_page_fread(reader, data_offset, error);
+        if (status != CARQUET_OK) {
+            return status;
+        }
+        return load_next_page_fread(reader, error);
     }
 
     if (page_header.type != CARQUET_PAGE_DATA && page_header.type != CARQUET_PAGE_DATA_V2) {
